@@ -35,6 +35,17 @@ func runClockSuite(seed uint64, n int, out *Out, stats *Stats) {
 			default:
 				now, kind = b+int64(r.U64n(uint64(d))), "inside"
 			}
+			if i%24 == 0 {
+				// the period as main.go wires it: ValidationTimer() of protocol settings that went through
+				// the repository's decoder (interval 2 s, timeout 3 s); the reading is a few milliseconds
+				// before a boundary of the interval that is not a boundary of the timeout
+				set := &Settings{Limit: 1440, Genesis: 1, HalfLife: 3600e9, Base: 1, ILimit: 2, Fee: 1, Units: 100_000_000,
+					Timeout: 3 * time.Second, Interval: int64(2 * time.Second), VerifCnt: 6}
+				timer = set.ValidationTimer()
+				d = int64(2 * time.Second)
+				b = base - gridMod(base, 6*int64(time.Second)) + 2*int64(time.Second)
+				now, kind = b-int64(1+r.Intn(4))*int64(time.Millisecond), "settings-wired"
+			}
 			watch := &ScriptWatch{readings: []int64{now}}
 			var got []int64
 			e := clock.NewEngine(func(ts int64) { got = append(got, ts) }, watch, timer, 1, 0)
